@@ -700,3 +700,32 @@ Lemma same_bytes_refuted :
 Proof.
   exists rf_tbl, (mk_state rf_heap []), rf_call, "sha256:m". vm_compute. repeat split.
 Qed.
+
+(* ---------- referrers tag-schema fallback family ---------- *)
+Lemma rmodel_spec_ok : forall cs, rspec_calls cs (map rmodel_call cs) = true.
+Proof.
+  induction cs as [|c cs IH]; simpl; [reflexivity|].
+  rewrite IH, Bool.andb_true_r.
+  unfold rspec_call, rmodel_call, r_frame.
+  destruct (rc_old_index c) as [d|]; [destruct (rc_del_fails c)|]; simpl;
+    rewrite ?String.eqb_refl; reflexivity.
+Qed.
+
+Lemma rspec_envelope : forall c o,
+  rspec_call c o = true -> ro_outcome o <> RFailed ->
+  ro_attached o = true /\ ro_envelope o = Some (rc_sig c)
+  /\ (forall d, In d (ro_removed o) -> rc_old_index c = Some d).
+Proof.
+  intros c o H Hn. unfold rspec_call in H.
+  apply Bool.andb_true_iff in H. destruct H as [Hf H].
+  assert (Hfr : forall d, In d (ro_removed o) -> rc_old_index c = Some d).
+  { intros d Hd. unfold r_frame in Hf. rewrite forallb_forall in Hf.
+    specialize (Hf d Hd). destruct (rc_old_index c) as [x|]; simpl in Hf; [|discriminate].
+    apply String.eqb_eq in Hf. subst. reflexivity. }
+  assert (H' : ro_attached o && r_ostr_eqb (ro_envelope o) (Some (rc_sig c)) = true).
+  { destruct (ro_outcome o); try exact H. exfalso; apply Hn; reflexivity. }
+  apply Bool.andb_true_iff in H'. destruct H' as [Ha He].
+  repeat split; auto.
+  destruct (ro_envelope o) as [e|]; simpl in He; [|discriminate].
+  apply String.eqb_eq in He. subst. reflexivity.
+Qed.
